@@ -3,6 +3,7 @@ mode (for panics: the source location) and a named input predicate all match an 
 /verif/known_findings.json.  The file is read-only at run time."""
 import json
 import os
+import re
 
 VERIF = os.path.dirname(os.path.dirname(os.path.abspath(__file__)))
 
@@ -87,6 +88,11 @@ def matches(f, pid, v):
             return False
     elif m != fm:
         return False
+    if "max_excess" in f:
+        # C15 only: the specification's diagnosis carries by how many encodings the stated bound is exceeded
+        mm = re.search(r'"excess",\s*(\d+)', v.get("diag", ""))
+        if not mm or int(mm.group(1)) > f["max_excess"]:
+            return False
     pred = PREDICATES.get(f.get("where", "any"))
     if pred is None:
         return False
